@@ -14,15 +14,15 @@ from ..common import Verdict
 from . import c08
 
 TARGETS = ["types.ts", "commands.ts", "events.ts", "index.ts", ".typecache", "dependency-graph.txt", "dependency-graph.dot", "<output-dir>"]
-KINDS = ["open-EACCES", "write-ENOSPC", "open-SIGKILL", "EISDIR", "ENOTDIR", "fsize-limit-1KiB", "fsize-limit-2KiB"]
+KINDS = ["open-EACCES", "write-ENOSPC", "open-SIGKILL", "EISDIR", "ENOTDIR", "fsize-limit-1KiB", "fsize-limit-2KiB", "file-in-its-place"]
 PHASES = ["first-run", "after-edit", "edit-then-revert"]
 
 
 def scenario(a):
     cli, drv, target, kind, phase, mode, path, seed = a[:8]
-    if kind == "ENOTDIR" and target != "<output-dir>":
-        return {"skip": "ENOTDIR only applies to the output directory"}
-    if target == "<output-dir>" and kind not in ("ENOTDIR", "open-EACCES"):
+    if kind in ("ENOTDIR", "file-in-its-place") and target != "<output-dir>":
+        return {"skip": "ENOTDIR / file-in-its-place only apply to the output directory"}
+    if target == "<output-dir>" and kind not in ("ENOTDIR", "open-EACCES", "file-in-its-place"):
         return {"skip": "n/a"}
     if kind.startswith("fsize-limit") and target != "types.ts":
         return {"skip": "the file-size limit applies to the whole process; run once per scenario"}
@@ -79,6 +79,14 @@ def scenario(a):
             obstacle = ("dir", tpath)
             rf = common.run(argv(), cwd=root, hash_seed=seed % 97 + 1)
             info["injected"] = True
+        elif kind == "file-in-its-place":
+            # the output path itself names a regular file (the directory of an earlier run replaced by a file)
+            if os.path.isdir(out):
+                shutil.rmtree(out)
+            open(out, "w").write("i am a file where the output directory should be")
+            obstacle = ("file", out)
+            rf = common.run(argv(), cwd=root, hash_seed=seed % 97 + 1)
+            info["injected"] = True
         elif kind == "ENOTDIR":
             # the output path's parent is a regular file
             if os.path.isdir(out):
@@ -125,6 +133,9 @@ def scenario(a):
         # remove the obstacle
         if obstacle and obstacle[0] == "dir":
             shutil.rmtree(obstacle[1], ignore_errors=True)
+        if obstacle and obstacle[0] == "file":
+            if os.path.isfile(obstacle[1]):
+                os.unlink(obstacle[1])
         if obstacle and obstacle[0] == "notdir":
             os.unlink(obstacle[1])
             c08.write_state(root, s, path, absolute=True)
